@@ -35,7 +35,7 @@
 /* ---------------------------------------------------------------- script */
 #define MAXMOD 16
 #define MAXPROC 128
-#define MAXCALL 96
+#define MAXCALL 400
 #define MAXTOK 12
 #define MAXCB 64
 
@@ -242,6 +242,25 @@ static void h2(m_mod_t *s, const m_queue_t *const q) { handler_common(s, q, 2); 
 static void h3(m_mod_t *s, const m_queue_t *const q) { handler_common(s, q, 3); }
 static m_evt_cb handlers[] = { h0, h1, h2, h3 };
 
+/* task sources: the task body of (module m, tid k) blocks until the script fires it ("fire m task k"), so that the completion of a
+   task is an environment action like every other one; task_waiting counts the threads parked at each gate */
+#include <semaphore.h>
+#define NGATE 32
+static sem_t task_gate[NGATE]; static volatile int task_waiting[NGATE];
+static int task_body(int g) { __atomic_add_fetch(&task_waiting[g], 1, __ATOMIC_SEQ_CST); sem_wait(&task_gate[g]); return 7; }
+#define TF(g) static int task_fn_##g(void *up) { (void)up; return task_body(g); }
+TF(0) TF(1) TF(2) TF(3) TF(4) TF(5) TF(6) TF(7) TF(8) TF(9) TF(10) TF(11) TF(12) TF(13) TF(14) TF(15) TF(16) TF(17) TF(18) TF(19)
+TF(20) TF(21) TF(22) TF(23) TF(24) TF(25) TF(26) TF(27) TF(28) TF(29) TF(30) TF(31)
+static int (*task_fns[])(void *) = { task_fn_0, task_fn_1, task_fn_2, task_fn_3, task_fn_4, task_fn_5, task_fn_6, task_fn_7, task_fn_8, task_fn_9,
+  task_fn_10, task_fn_11, task_fn_12, task_fn_13, task_fn_14, task_fn_15, task_fn_16, task_fn_17, task_fn_18, task_fn_19, task_fn_20, task_fn_21,
+  task_fn_22, task_fn_23, task_fn_24, task_fn_25, task_fn_26, task_fn_27, task_fn_28, task_fn_29, task_fn_30, task_fn_31 };
+/* the library joins its task threads when the loop stops (m_thpool_free): the parked bodies finish then */
+int __real_pthread_join(pthread_t th, void **ret);
+int __wrap_pthread_join(pthread_t th, void **ret) {
+    for (int g = 0; g < NGATE; g++) while (task_waiting[g] > 0) { __atomic_sub_fetch(&task_waiting[g], 1, __ATOMIC_SEQ_CST); sem_post(&task_gate[g]); }
+    return __real_pthread_join(th, ret);
+}
+static int gate_of(long m, unsigned long long key) { return (int)((m * 4 + (long)(key % 4)) % NGATE); }
 static int task_fn(void *up) { (void)up; return 7; }
 
 static long L(const char *s) { return strtol(s, NULL, 10); }
@@ -283,8 +302,20 @@ static void do_env(call_t *c) {
     if (!strcmp(o, "fdwrite")) { long u = L(c->tok[1]); if (u >= 0 && u < NUFD && !ufd_closed[u]) { char x = 1; if (write(ufd_w[u], &x, 1) != 1) {} } }
     else if (!strcmp(o, "fire")) {
         int m = (int)L(c->tok[1]); m_src_types t = ktype(c->tok[2]); unsigned long long key = U(c->tok[3]);
-        if (m < 0 || m >= MAXMOD || !modptr[m] || m_mod_is(modptr[m], M_MOD_ZOMBIE)) return;
+        if (m < 0 || m >= MAXMOD) return;
+        if (!modptr[m] || m_mod_is(modptr[m], M_MOD_ZOMBIE)) {
+            if (t == M_SRC_TYPE_TASK) { int g = gate_of(m, key); for (int i = 0; i < 20 && task_waiting[g] == 0; i++) usleep(1000); if (task_waiting[g] > 0) { __atomic_sub_fetch(&task_waiting[g], 1, __ATOMIC_SEQ_CST); sem_post(&task_gate[g]); { struct timespec t0, t1; clock_gettime(CLOCK_MONOTONIC, &t0); do { usleep(50000); clock_gettime(CLOCK_MONOTONIC, &t1); } while (t1.tv_sec - t0.tv_sec < 8); }; } }
+            return;
+        }
         ev_src_t *s = find_lib_src(modptr[m], t, key);
+        if (t == M_SRC_TYPE_TASK) {
+            /* let ONE parked task body of (m, key) finish; with an armed source wait for its completion event */
+            int g = gate_of(m, key);
+            for (int i = 0; i < ((s && s->ev) ? 200 : 20) && task_waiting[g] == 0; i++) usleep(1000);   /* the thread may still be starting */
+            if (task_waiting[g] > 0) { __atomic_sub_fetch(&task_waiting[g], 1, __ATOMIC_SEQ_CST); sem_post(&task_gate[g]); if (!s || !s->ev) { struct timespec t0, t1; clock_gettime(CLOCK_MONOTONIC, &t0); do { usleep(50000); clock_gettime(CLOCK_MONOTONIC, &t1); } while (t1.tv_sec - t0.tv_sec < 8); }; }   /* an orphan thread: leave the sanitizer time to report */
+            if (s && s->ev) wait_readable(s->task_src.f.fd);
+            return;
+        }
         if (!s || !s->ev) return;                       /* not armed: nothing can fire */
         if (t == M_SRC_TYPE_TMR) {
             struct itimerspec v = {{0}}; v.it_value.tv_nsec = 1;
@@ -294,7 +325,6 @@ static void do_env(call_t *c) {
             if (!sigismember(&pend, (int)key)) raise((int)key);      /* queued (real time) signals would need one read each */
             wait_readable(s->sgn_src.f.fd);
         }
-        else if (t == M_SRC_TYPE_TASK) { wait_readable(s->task_src.f.fd); }
     } else if (!strcmp(o, "firetick")) {
         m_ctx_t *c2 = m_ctx();
         if (c2 && c2->tick.src && c2->tick.src->ev) {
@@ -334,7 +364,7 @@ static int exec_call(proc_t *pr, int idx, m_evt_t **cur, int ncur) {
         f.pr.n = 1; f.own = (int)L(c->tok[1]); f.cur = cur; f.ncur = ncur;
         pthread_t th; fflush(stdout);
         if (pthread_create(&th, NULL, foreign_main, &f)) { out("BADCALL foreign thread"); return 1; }
-        pthread_join(th, NULL);
+        __real_pthread_join(th, NULL);
         return 1;
     }
     if (!strcmp(o, "tell") || !strcmp(o, "publish") || !strcmp(o, "tellmany")) out("> %s %s", o, c->tok[3]);
@@ -426,7 +456,10 @@ static int exec_call(proc_t *pr, int idx, m_evt_t **cur, int ncur) {
         case M_SRC_TYPE_SGN: { m_src_sgn_t sg = { (unsigned)key }; r = m_mod_src_register_sgn(H(a), &sg, fl, up); break; }
         case M_SRC_TYPE_PATH: { m_src_path_t pt = { key ? path_str(key) : "", 2 }; r = m_mod_src_register_path(H(a), &pt, fl, up); break; }
         case M_SRC_TYPE_PID: { m_src_pid_t pd = { (pid_t)key, 0 }; r = m_mod_src_register_pid(H(a), &pd, fl, up); break; }
-        case M_SRC_TYPE_TASK: { m_src_task_t tk = { (int)key, key ? task_fn : NULL }; r = m_mod_src_register_task(H(a), &tk, fl, up); break; }
+        case M_SRC_TYPE_TASK: { m_src_task_t tk = { (int)key, key ? task_fns[gate_of(a, key)] : NULL }; r = m_mod_src_register_task(H(a), &tk, fl, up);
+            /* a RUNNING module starts the task thread at once: wait until its body is parked at the gate, so that what follows is ordered after it */
+            if (r == 0 && H(a) && m_mod_is(H(a), M_MOD_RUNNING)) for (int i = 0; i < 500 && task_waiting[gate_of(a, key)] == 0; i++) usleep(1000);
+            break; }
         case M_SRC_TYPE_THRESH: { m_src_thresh_t th = { key, 0 }; r = m_mod_src_register_thresh(H(a), &th, fl, up); break; }
         default: break;
         }
@@ -519,7 +552,9 @@ static void run_case(void) {
     run_proc(1, NULL, 0);
 }
 
+static bool too_long;
 int main(int argc, char **argv) {
+    setvbuf(stdout, NULL, _IOLBF, 0);          /* before any output: a case that crashes keeps the lines it printed */
     if (argc >= 2 && !strcmp(argv[1], "--params")) { print_params(); return 0; }
     if (argc < 2) { fprintf(stderr, "usage: %s script | --params\n", argv[0]); return 2; }
     FILE *f = fopen(argv[1], "r"); if (!f) { perror("script"); return 2; }
@@ -537,11 +572,30 @@ int main(int argc, char **argv) {
         if (!in_case) continue;
         if (!strcmp(tok[0], "end")) {
             printf("case %s\n", id); fflush(stdout);
+            if (too_long) { printf("BADSCRIPT procedure longer than %d calls\nend\n", MAXCALL); fflush(stdout); in_case = false; too_long = false; continue; }
+            /* the child's stderr goes to a scratch file: on a crash the sanitizer summary (kind, function) becomes part of the CRASH line */
+            FILE *ef = tmpfile();
             pid_t pid = fork();
-            if (pid == 0) { setvbuf(stdout, NULL, _IOLBF, 0); run_case(); fflush(stdout); _exit(0); }
+            if (pid == 0) {
+                if (ef) dup2(fileno(ef), 2);
+                for (int g = 0; g < NGATE; g++) { sem_init(&task_gate[g], 0, 0); task_waiting[g] = 0; }
+                setvbuf(stdout, NULL, _IOLBF, 0); run_case(); fflush(stdout); _exit(0);
+            }
             int st = 0; waitpid(pid, &st, 0);
-            if (WIFSIGNALED(st)) printf("CRASH signal %d\n", WTERMSIG(st));
-            else if (WEXITSTATUS(st) != 0) printf("CRASH exit %d\n", WEXITSTATUS(st));
+            char summary[160] = "";
+            if (ef) {
+                static char ebuf[1 << 16]; rewind(ef); size_t n = fread(ebuf, 1, sizeof(ebuf) - 1, ef); ebuf[n] = 0; fclose(ef);
+                if (n) fwrite(ebuf, 1, n, stderr);
+                char *p = strstr(ebuf, "SUMMARY: ");
+                if (p) {                                   /* "SUMMARY: AddressSanitizer: <kind> <file:line> in <function>" */
+                    char kind[64] = "", func[64] = ""; char *q = strchr(p + 9, ' ');
+                    if (q) sscanf(q + 1, "%63s", kind);
+                    char *in = strstr(p, " in "); if (in) sscanf(in + 4, "%63s", func);
+                    snprintf(summary, sizeof(summary), " %s %s", kind, func);
+                }
+            }
+            if (WIFSIGNALED(st)) printf("CRASH signal %d%s\n", WTERMSIG(st), summary);
+            else if (WEXITSTATUS(st) != 0) printf("CRASH exit %d%s\n", WEXITSTATUS(st), summary);
             printf("end\n"); fflush(stdout); in_case = false; continue;
         }
         if (!strcmp(tok[0], "mod") && nt >= 12) {
@@ -560,6 +614,7 @@ int main(int argc, char **argv) {
         }
         if (!strcmp(tok[0], "proc")) { curp = atoi(tok[1]); if (curp >= MAXPROC) curp = -1; else { procs[curp].n = 0; if (curp >= nprocs) nprocs = curp + 1; } continue; }
         if (!strcmp(tok[0], "endproc")) { curp = -1; continue; }
+        if (curp >= 0 && procs[curp].n >= MAXCALL) { too_long = true; continue; }      /* never truncate silently */
         if (curp >= 0 && procs[curp].n < MAXCALL) {
             call_t *c = &procs[curp].calls[procs[curp].n++]; c->nt = nt < MAXTOK ? nt : MAXTOK;
             for (int i = 0; i < c->nt; i++) snprintf(c->tok[i], sizeof(c->tok[i]), "%s", tok[i]);
